@@ -66,7 +66,7 @@ def compute_domains_no_sub_cycle(domains: NDArray, parameters: NDArray) -> int:
                 paths[i, PATH_LENGTH] = paths[j, PATH_LENGTH] = paths[start, PATH_LENGTH] = paths[end, PATH_LENGTH] = (
                     length
                 )
-                if length < n - 1:
+                if length < n - 1 or (i == j and n > 1):  # a self-loop is a sub-cycle too
                     if domains[end, MIN] == start:
                         domains[end, MIN] = start + 1
                     if domains[end, MAX] == start:
